@@ -55,3 +55,16 @@ Fixpoint walk_follows (fuel : nat) (f : fs) (root cur : N) (cs : list bytes) (fo
       end
     end
   end.
+
+(* ---- well-formedness of the initial file system, as far as the containment proofs use it ---- *)
+Definition entry_name_ok (n : bytes) : bool := name_ok n.
+
+Record fs_wf (f : fs) : Prop := {
+  wf_alloc : alloc_ok f;                                              (* numbers >= f_next are unused *)
+  wf_target : forall j name child, blookup name (dents f j) = Some child -> child < f_next f;
+  wf_nodup : forall j, NoDup (map fst (dents f j));                   (* names in a directory are unique *)
+  wf_names : forall j, forallb entry_name_ok (map fst (dents f j)) = true;   (* proper names *)
+  wf_single : forall j1 j2 n1 n2 i, blookup n1 (dents f j1) = Some i -> blookup n2 (dents f j2) = Some i ->
+              is_dir f i = true -> j1 = j2 /\ n1 = n2;                (* a directory has one parent entry *)
+  wf_acyclic : acyclic f                                              (* no directory below itself *)
+}.
